@@ -60,7 +60,11 @@ use swimos_api::address::RelativeAddress;
 use swimos_agent_protocol::encoding::lane::{
     RawMapLaneRequestDecoder, RawMapLaneResponseEncoder, RawValueLaneRequestDecoder, RawValueLaneResponseEncoder,
 };
-use swimos_agent_protocol::{LaneRequest, LaneResponse, MapMessage, MapOperation};
+use swimos_agent_protocol::encoding::store::{RawValueStoreInitDecoder, StoreInitializedCodec};
+use swimos_agent_protocol::{
+    LaneRequest, LaneResponse, MapMessage, MapOperation, StoreInitMessage, StoreInitialized,
+};
+use swimos_api::agent::StoreKind;
 use swimos_api::agent::{Agent, AgentConfig, AgentContext, AgentInitResult, LaneConfig, WarpLaneKind};
 use swimos_api::error::AgentTaskError;
 use swimos_utilities::routing::RouteUri;
@@ -93,6 +97,9 @@ struct PAgent {
     t: ValueLane<i32>,
     vs: ValueStore<Option<i32>>,
     ms: MapStore<i32, Option<i32>>,
+    // large state: values of several KB (restored across several reads of the init channel)
+    b: ValueLane<String>,
+    bs: ValueStore<String>,
     #[item(transient)]
     ts: ValueStore<i32>,
     ctl: CommandLane<String>,
@@ -119,8 +126,18 @@ fn make_pagent() -> PAgent {
     a
 }
 
+/// `n` characters, not all equal (so that a shifted / truncated restore is visible).
+fn big_string(n: usize, c: char) -> String {
+    (0..n).map(|i| if i % 97 == 0 { 'Q' } else { c }).collect()
+}
+
 fn opt_bytes(v: &Option<i32>) -> Vec<u8> {
     v.map(|n| n.to_string().into_bytes()).unwrap_or_default()
+}
+
+/// The Recon bytes of a string value (what the store holds for it), in hex.
+fn hxs(v: &str) -> String {
+    hex(format!("{}", swimos_recon::print_recon_compact(&v.to_string())).as_bytes())
 }
 
 fn hxo(v: Option<i32>) -> String {
@@ -161,17 +178,23 @@ impl PLife {
                     context.get_value(PAgent::VS).and_then(move |vs: Option<i32>| {
                         context.get_map(PAgent::MS).and_then(move |ms: HashMap<i32, Option<i32>>| {
                             context.get_value(PAgent::TS).and_then(move |ts: i32| {
-                                context.effect(move || {
-                                    let line = format!(
-                                        "at-start v={} m={} t={} vs={} ms={} ts={}",
-                                        hxo(v),
-                                        fmt_map(&m),
-                                        hx(t),
-                                        hxo(vs),
-                                        fmt_map(&ms),
-                                        hx(ts)
-                                    );
-                                    log.lock().push("start".into(), line);
+                                context.get_value(PAgent::B).and_then(move |b: String| {
+                                    context.get_value(PAgent::BS).and_then(move |bs: String| {
+                                        context.effect(move || {
+                                            let line = format!(
+                                                "at-start v={} m={} t={} vs={} ms={} ts={} b={} bs={}",
+                                                hxo(v),
+                                                fmt_map(&m),
+                                                hx(t),
+                                                hxo(vs),
+                                                fmt_map(&ms),
+                                                hx(ts),
+                                                hxs(&b),
+                                                hxs(&bs)
+                                            );
+                                            log.lock().push("start".into(), line);
+                                        })
+                                    })
                                 })
                             })
                         })
@@ -193,15 +216,21 @@ impl PLife {
             ["ms", "u", k, v] => context.update(PAgent::MS, num(k), opt(v)).boxed_local(),
             ["ms", "r", k] => context.remove(PAgent::MS, num(k)).boxed_local(),
             ["ms", "c"] => context.clear(PAgent::MS).boxed_local(),
+            // a string of `n` characters (large state)
+            ["bs", n] => context
+                .set_value(PAgent::BS, big_string(n.parse::<usize>().unwrap_or(0), 'y'))
+                .boxed_local(),
             ["probe"] => context
                 .get_value(PAgent::VS)
                 .and_then(move |vs: Option<i32>| {
                     context.get_map(PAgent::MS).and_then(move |ms: HashMap<i32, Option<i32>>| {
                         context.get_value(PAgent::TS).and_then(move |ts: i32| {
-                            context.set_value(
-                                PAgent::REP,
-                                format!("vs={};ms={};ts={}", hxo(vs), fmt_map(&ms), hx(ts)),
-                            )
+                            context.get_value(PAgent::BS).and_then(move |bs: String| {
+                                context.set_value(
+                                    PAgent::REP,
+                                    format!("vs={};ms={};ts={};bs={}", hxo(vs), fmt_map(&ms), hx(ts), hxs(&bs)),
+                                )
+                            })
                         })
                     })
                 })
@@ -227,18 +256,65 @@ const LATE_LANES: &[(&str, bool, bool, bool)] = &[
 enum AgentCmd {
     /// call `AgentContext::add_lane` now (the agent is running); `done` fires when the lane is initialised
     AddLane { name: String, map: bool, transient: bool, done: oneshot::Sender<()> },
+    /// call `AgentContext::add_store` now (a value store); `done` fires when it is initialised
+    AddStore { name: String, done: oneshot::Sender<()> },
+    /// the store publishes a new value (raw bytes)
+    SetStore { name: String, value: Vec<u8> },
+}
+
+/// The agent side of the (value) store protocol: `Command*` `InitComplete` → `StoreInitialized`, then one
+/// `StoreResponse` per change (same framing as a lane's `StandardEvent`).
+async fn value_store(
+    name: String,
+    io: (ByteWriter, ByteReader),
+    log: Arc<Mutex<Log>>,
+    done: oneshot::Sender<()>,
+    mut sets: mpsc::UnboundedReceiver<Vec<u8>>,
+) {
+    let (tx, rx) = io;
+    let mut state: Vec<u8> = b"0".to_vec();
+    {
+        let mut rd = FramedRead::new(rx, RawValueStoreInitDecoder::default());
+        loop {
+            match rd.next().await {
+                Some(Ok(StoreInitMessage::Command(b))) => state = b.to_vec(),
+                Some(Ok(StoreInitMessage::InitComplete)) => break,
+                _ => return,
+            }
+        }
+    }
+    let mut tx = tx;
+    {
+        let mut ack = FramedWrite::new(&mut tx, StoreInitializedCodec);
+        if ack.send(StoreInitialized).await.is_err() {
+            return;
+        }
+    }
+    log.lock().push(format!("init {}", name), format!("val={}", hex(&state)));
+    let _ = done.send(());
+    let mut wr = FramedWrite::new(tx, RawValueLaneResponseEncoder::default());
+    while let Some(v) = sets.recv().await {
+        if wr.send(LaneResponse::StandardEvent(v.as_slice())).await.is_err() {
+            return;
+        }
+    }
 }
 
 /// An `Agent` implemented by the harness: registers `early` during initialisation, further lanes on command.
 struct LateAgent {
     log: Arc<Mutex<Log>>,
+    /// input buffer of every lane
+    ibuf: usize,
     early: Vec<(String, bool, bool)>,
     cmds: Arc<Mutex<Option<mpsc::UnboundedReceiver<AgentCmd>>>>,
 }
 
-fn lane_cfg(transient: bool) -> LaneConfig {
-    let buf = NonZeroUsize::new(4096).unwrap();
-    LaneConfig { input_buffer_size: buf, output_buffer_size: buf, transient }
+fn lane_cfg(transient: bool, ibuf: usize) -> LaneConfig {
+    LaneConfig {
+        input_buffer_size: NonZeroUsize::new(ibuf.max(1)).unwrap(),
+        output_buffer_size: NonZeroUsize::new(4096).unwrap(),
+        transient,
+    }
 }
 
 /// The lane side of the value-lane protocol (state = raw bytes, default `0`).
@@ -422,13 +498,14 @@ impl Agent for LateAgent {
         context: Box<dyn AgentContext + Send>,
     ) -> BoxFuture<'static, AgentInitResult> {
         let log = self.log.clone();
+        let ibuf = self.ibuf;
         let early = self.early.clone();
         let mut cmd_rx = self.cmds.lock().take();
         async move {
             // ---- initialisation phase: register the early lanes and initialise them (as `AgentModel` does)
             let mut pending: Vec<BoxFuture<'static, ()>> = vec![];
             for (name, map, transient) in early {
-                let io = context.add_lane(&name, warp_kind(map), lane_cfg(transient)).await?;
+                let io = context.add_lane(&name, warp_kind(map), lane_cfg(transient, ibuf)).await?;
                 log.lock().push(format!("added {} ok", name), "ok".into());
                 let (done_tx, done_rx) = oneshot::channel();
                 let mut lane = lane_task(name, map, transient, io, log.clone(), Some(done_tx));
@@ -443,6 +520,9 @@ impl Agent for LateAgent {
             let task: BoxFuture<'static, Result<(), AgentTaskError>> = async move {
                 let lanes: FuturesUnordered<BoxFuture<'static, ()>> = pending.into_iter().collect();
                 let mut lanes = lanes;
+                let mut store_sets: HashMap<String, mpsc::UnboundedSender<Vec<u8>>> = HashMap::new();
+                // (stores do not hear about the runtime stopping: the task ends when every LANE is closed)
+                let mut stores: FuturesUnordered<BoxFuture<'static, ()>> = FuturesUnordered::new();
                 loop {
                     tokio::select! {
                         cmd = async {
@@ -454,7 +534,7 @@ impl Agent for LateAgent {
                             match cmd {
                                 Some(AgentCmd::AddLane { name, map, transient, done }) => {
                                     // ---- a lane registered WHILE THE AGENT IS RUNNING
-                                    let fut = context.add_lane(&name, warp_kind(map), lane_cfg(transient));
+                                    let fut = context.add_lane(&name, warp_kind(map), lane_cfg(transient, ibuf));
                                     let log = log.clone();
                                     lanes.push(async move {
                                         match fut.await {
@@ -466,9 +546,31 @@ impl Agent for LateAgent {
                                         }
                                     }.boxed());
                                 }
+                                Some(AgentCmd::AddStore { name, done }) => {
+                                    // ---- a store registered WHILE THE AGENT IS RUNNING
+                                    let fut = context.add_store(&name, StoreKind::Value);
+                                    let log = log.clone();
+                                    let (set_tx, set_rx) = mpsc::unbounded_channel();
+                                    store_sets.insert(name.clone(), set_tx);
+                                    stores.push(async move {
+                                        match fut.await {
+                                            Ok(io) => {
+                                                log.lock().push(format!("added {} ok", name), "ok".into());
+                                                value_store(name, io, log, done, set_rx).await
+                                            }
+                                            Err(_) => log.lock().push(format!("added {} err", name), "ok".into()),
+                                        }
+                                    }.boxed());
+                                }
+                                Some(AgentCmd::SetStore { name, value }) => {
+                                    if let Some(tx) = store_sets.get(&name) {
+                                        let _ = tx.send(value);
+                                    }
+                                }
                                 None => cmd_rx = None,
                             }
                         }
+                        _ = stores.next(), if !stores.is_empty() => {}
                         _ = lanes.next(), if !lanes.is_empty() => {
                             if lanes.is_empty() {
                                 // every lane's channels are closed: the runtime has stopped
@@ -494,12 +596,16 @@ enum Cut {
     AfterStore(usize),
     AfterFrame(usize),
     FailStore(usize),
+    /// the n-th `id_for` call of the phase fails
+    FailId(usize),
 }
 
 struct Log {
     lines: Vec<(String, String)>,
     nstore: usize,
     nframe: usize,
+    /// `id_for` calls of the current phase
+    nid: usize,
     cut: Cut,
     dead: bool,
     crash: Arc<Notify>,
@@ -513,6 +619,7 @@ impl Log {
             lines: vec![],
             nstore: 0,
             nframe: 0,
+            nid: 0,
             cut: Cut::None,
             dead: false,
             crash: Arc::new(Notify::new()),
@@ -603,6 +710,18 @@ impl NodePersistence for RecStore {
     type LaneId = u64;
 
     fn id_for(&self, name: &str) -> Result<u64, StoreError> {
+        {
+            let mut log = self.log.lock();
+            if !log.dead {
+                log.nid += 1;
+                if log.cut == Cut::FailId(log.nid) {
+                    // an error that is NOT `NoStoreAvailable`: the id table cannot be read
+                    log.cut = Cut::None;
+                    log.push(format!("idfail {}", name), "ok".into());
+                    return Err(StoreError::DelegateMessage("injected id failure".into()));
+                }
+            }
+        }
         let mut inner = self.inner.lock();
         let id = match inner.ids.iter().position(|n| n == name) {
             Some(i) => i,
@@ -765,6 +884,8 @@ struct Run {
     rbuf: usize,
     /// late rig: commands to the harness-implemented agent
     cmd_tx: Option<mpsc::UnboundedSender<AgentCmd>>,
+    /// the last `attach` was confirmed by the runtime (it is up and serving)
+    attached: bool,
     _keep: Rc<RefCell<Vec<Box<dyn std::any::Any>>>>,
 }
 
@@ -790,7 +911,7 @@ fn err_kind(e: &AgentExecError) -> &'static str {
 }
 
 impl Run {
-    fn start(log: Arc<Mutex<Log>>, store: RecStore, spec: &Spec, rbuf: usize) -> Run {
+    fn start(log: Arc<Mutex<Log>>, store: RecStore, spec: &Spec, rbuf: usize, ibuf: usize) -> Run {
         let crash = log.lock().crash.clone();
         let (att_tx, att_rx) = mpsc::channel(8);
         let (http_tx, http_rx) = mpsc::channel(8);
@@ -801,7 +922,8 @@ impl Run {
         let config = CombinedAgentConfig {
             agent_config: AgentConfig {
                 default_lane_config: Some(LaneConfig {
-                    input_buffer_size: buf,
+                    // the channel the stored state is streamed through on (re)start: small => several reads
+                    input_buffer_size: NonZeroUsize::new(ibuf.max(1)).unwrap(),
                     output_buffer_size: buf,
                     transient,
                 }),
@@ -833,6 +955,7 @@ impl Run {
                 cmd_tx = Some(tx);
                 let agent = LateAgent {
                     log: log.clone(),
+                    ibuf,
                     early: early.clone(),
                     cmds: Arc::new(Mutex::new(Some(rx))),
                 };
@@ -851,6 +974,7 @@ impl Run {
             remotes: BTreeMap::new(),
             rbuf,
             cmd_tx,
+            attached: false,
             _keep: Rc::new(RefCell::new(keep)),
         }
     }
@@ -912,11 +1036,17 @@ impl Run {
         let (on_tx, on_rx) = trigger::trigger();
         let req = AgentAttachmentRequest::with_confirmation(rid(r), (out_tx, in_rx), comp_tx, on_tx);
         let att = self.att_tx.clone();
-        self.with(async move {
-            let _ = att.send(req).await;
-            let _ = on_rx.await;
-        })
-        .await?;
+        // time-boxed (paused clock): attachments are only served once the initialisation (restore) is complete
+        let confirmed = self
+            .with(async move {
+                tokio::time::timeout(Duration::from_secs(20), async move {
+                    att.send(req).await.is_ok() && on_rx.await.is_ok()
+                })
+                .await
+                .unwrap_or(false)
+            })
+            .await?;
+        self.attached = confirmed;
         let (gate_tx, gate_rx) = watch::channel(false);
         let reader = tokio::task::spawn_local(reader_task(r, out_rx, gate_rx, self.log.clone()));
         if let Some(old) = self.remotes.insert(
@@ -1004,6 +1134,22 @@ impl Run {
                 })
                 .await
             }
+            ["addstore", name] => {
+                let (done_tx, done_rx) = oneshot::channel();
+                if let Some(tx) = &self.cmd_tx {
+                    let _ = tx.send(AgentCmd::AddStore { name: name.to_string(), done: done_tx });
+                }
+                self.with(async move {
+                    let _ = tokio::time::timeout(Duration::from_secs(3), done_rx).await;
+                })
+                .await
+            }
+            ["setstore", name, body] => {
+                if let Some(tx) = &self.cmd_tx {
+                    let _ = tx.send(AgentCmd::SetStore { name: name.to_string(), value: svh::unhex(body)? });
+                }
+                self.with(tokio::time::sleep(Duration::from_millis(5))).await
+            }
             _ => Some(()),
         };
         r
@@ -1038,6 +1184,12 @@ struct Plan {
     reinit_early: bool,
     transient: bool,
     rbuf: usize,
+    /// input buffer of the lanes = the channel the stored state is streamed through on (re)start
+    ibuf: usize,
+    /// the n-th `id_for` call of the FIRST restart fails (the start must fail; the next start restores)
+    rfail: Option<usize>,
+    /// the history contains values of several KB (generator only: fewer cuts are run)
+    big: bool,
     script: Vec<String>,
     end: String, // stop | idle | crashS n | crashF n | fail n
     /// commands issued (through remote 9) after the restart, followed by a second restart
@@ -1052,6 +1204,8 @@ const ITEMS: &[(&str, &str, bool, bool)] = &[
     ("vs", "value", false, false),
     ("ms", "map", false, false),
     ("ts", "value", false, true),
+    ("b", "value", true, false),
+    ("bs", "value", false, false),
 ];
 
 fn in_rt<T>(f: impl FnOnce(&tokio::runtime::Runtime, &LocalSet) -> T) -> T {
@@ -1117,6 +1271,20 @@ fn late_lanes_of(plan: &Plan) -> Vec<(String, bool, bool)> {
     out
 }
 
+/// The stores a plan of the late rig registers at run time.
+fn late_stores_of(plan: &Plan) -> Vec<String> {
+    let mut out: Vec<String> = vec![];
+    for st in plan.script.iter().chain(plan.script2.iter()) {
+        let w: Vec<&str> = st.split_whitespace().collect();
+        if let ["addstore", name] = w.as_slice() {
+            if !out.iter().any(|l| l == name) {
+                out.push(name.to_string());
+            }
+        }
+    }
+    out
+}
+
 fn early_lanes() -> Vec<(String, bool, bool)> {
     LATE_LANES.iter().filter(|l| l.3).map(|l| (l.0.to_string(), l.1, l.2)).collect()
 }
@@ -1136,18 +1304,23 @@ fn spec_of(plan: &Plan, restarted: bool) -> Spec {
 /// Restart a fresh agent against the same store, let `on_start` report, probe the stores and sync every lane
 /// (`restored` lines); then run `tail` (more commands through remote 9) and stop cleanly.
 /// Late rig: the late lanes are registered again (at run time, or during initialisation), then all are synced.
-fn restart_phase(log: &Arc<Mutex<Log>>, store: &RecStore, plan: &Plan, tail: &[String]) {
+///
+/// `idfail`: the n-th `id_for` call of this start fails. Returns whether the agent came up; if it did not (the
+/// start failed or the restore did not complete within the time box) the log says `restartfailed` and the phase
+/// ends there.
+fn restart_phase(log: &Arc<Mutex<Log>>, store: &RecStore, plan: &Plan, tail: &[String], idfail: Option<usize>) -> bool {
     {
         let mut l = log.lock();
         l.dead = false;
-        l.cut = Cut::None;
+        l.nid = 0;
+        l.cut = idfail.map(Cut::FailId).unwrap_or(Cut::None);
         l.crash = Arc::new(Notify::new());
         l.frames.clear();
         l.push("restart".into(), "ok".into());
     }
     in_rt(|rt, local| {
         local.block_on(rt, async {
-            let mut run = Run::start(log.clone(), store.clone(), &spec_of(plan, true), 4096);
+            let mut run = Run::start(log.clone(), store.clone(), &spec_of(plan, true), 4096, plan.ibuf);
             let steps: Vec<String> = if plan.late {
                 let mut v = vec!["attach 9".to_string()];
                 let lanes = late_lanes_of(plan);
@@ -1155,6 +1328,9 @@ fn restart_phase(log: &Arc<Mutex<Log>>, store: &RecStore, plan: &Plan, tail: &[S
                     for (name, map, t) in &lanes {
                         v.push(format!("addlane {} {} {}", name, if *map { "map" } else { "value" }, *t as u8));
                     }
+                }
+                for name in late_stores_of(plan) {
+                    v.push(format!("addstore {}", name));
                 }
                 v.push("wait".into());
                 for (name, _, _) in early_lanes().iter().chain(lanes.iter()) {
@@ -1171,6 +1347,7 @@ fn restart_phase(log: &Arc<Mutex<Log>>, store: &RecStore, plan: &Plan, tail: &[S
                     "sync 9 v".to_string(),
                     "sync 9 m".to_string(),
                     "sync 9 t".to_string(),
+                    "sync 9 b".to_string(),
                     "sync 9 rep".to_string(),
                     "wait".to_string(),
                 ]
@@ -1181,6 +1358,14 @@ fn restart_phase(log: &Arc<Mutex<Log>>, store: &RecStore, plan: &Plan, tail: &[S
                     break;
                 }
             }
+            // did the agent come up? (the start may have failed, or the restore may not have completed)
+            let up = run.ended.is_none() && run.attached;
+            if !up {
+                log.lock().push("restartfailed".into(), "ok".into());
+                let _ = run.stop().await;
+                run.finish().await;
+                return false;
+            }
             // what remote 9 saw
             let frames = log.lock().frames.clone();
             if plan.late {
@@ -1189,7 +1374,7 @@ fn restart_phase(log: &Arc<Mutex<Log>>, store: &RecStore, plan: &Plan, tail: &[S
                     log.lock().push(format!("restored {}", name), state);
                 }
             } else {
-                for lane in ["v", "m", "t"] {
+                for lane in ["v", "m", "t", "b"] {
                     let state = seen_state(&frames, lane, lane == "m");
                     log.lock().push(format!("restored {}", lane), state);
                 }
@@ -1215,7 +1400,7 @@ fn restart_phase(log: &Arc<Mutex<Log>>, store: &RecStore, plan: &Plan, tail: &[S
                             .collect()
                     })
                     .unwrap_or_default();
-                for st in ["vs", "ms", "ts"] {
+                for st in ["vs", "ms", "ts", "bs"] {
                     let state = fields
                         .get(st)
                         .map(|x| format!("{}={}", if st == "ms" { "map" } else { "val" }, x))
@@ -1233,30 +1418,57 @@ fn restart_phase(log: &Arc<Mutex<Log>>, store: &RecStore, plan: &Plan, tail: &[S
             }
             let _ = run.stop().await;
             run.finish().await;
+            true
         })
-    });
+    })
 }
 
 /// Executes one plan; returns the log lines and the number of (store ops, frames) of the first phase.
-fn run_plan(plan: &Plan) -> (Vec<(String, String)>, usize, usize) {
+/// Sizes of a run: store operations / frames / `id_for` calls of the first phase, `id_for` calls of the restart.
+#[derive(Clone, Copy, Default)]
+struct Counts {
+    ns: usize,
+    nf: usize,
+    nid1: usize,
+    nid2: usize,
+}
+
+fn run_plan(plan: &Plan) -> (Vec<(String, String)>, Counts) {
     let log = Arc::new(Mutex::new(Log::new()));
     let store = RecStore { inner: Arc::new(Mutex::new(StoreInner::default())), log: log.clone() };
     {
         let mut l = log.lock();
         if plan.late {
             l.push(
-                format!("cfg late rbuf={} reinit={}", plan.rbuf, if plan.reinit_early { "early" } else { "late" }),
+                format!(
+                    "cfg late rbuf={} reinit={} ibuf={}",
+                    plan.rbuf,
+                    if plan.reinit_early { "early" } else { "late" },
+                    plan.ibuf
+                ),
                 "ok".into(),
             );
             for (name, map, transient) in early_lanes().iter().chain(late_lanes_of(plan).iter()) {
                 let (kind, def) = if *map { ("map", "-".to_string()) } else { ("value", hx(0)) };
                 l.push(format!("item {} {} {} {}", name, kind, !*transient as u8, def), "ok".into());
             }
+            for name in late_stores_of(plan) {
+                l.push(format!("item {} value 1 {}", name, hx(0)), "ok".into());
+            }
         } else {
-            l.push(format!("cfg transient={} rbuf={}", plan.transient as u8, plan.rbuf), "ok".into());
+            l.push(
+                format!("cfg transient={} rbuf={} ibuf={}", plan.transient as u8, plan.rbuf, plan.ibuf),
+                "ok".into(),
+            );
             for (name, kind, lane, flagged) in ITEMS {
                 let persistent = !*flagged && !(*lane && plan.transient);
-                let def = if *kind == "value" { hx(0) } else { "-".to_string() };
+                let def = if name.starts_with('b') {
+                    hxs("")
+                } else if *kind == "value" {
+                    hx(0)
+                } else {
+                    "-".to_string()
+                };
                 l.push(format!("item {} {} {} {}", name, kind, persistent as u8, def), "ok".into());
             }
         }
@@ -1266,9 +1478,13 @@ fn run_plan(plan: &Plan) -> (Vec<(String, String)>, usize, usize) {
         for s in &plan.script2 {
             l.push(format!("script2 {}", s), "ok".into());
         }
+        if let Some(n) = plan.rfail {
+            l.push(format!("rfail {}", n), "ok".into());
+        }
         l.push(format!("end {}", plan.end), "ok".into());
         let e: Vec<&str> = plan.end.split_whitespace().collect();
         l.cut = match e.as_slice() {
+            ["idfail", n] => Cut::FailId(n.parse().unwrap_or(0)),
             ["crashS", n] => Cut::AfterStore(n.parse().unwrap_or(0)),
             ["crashF", n] => Cut::AfterFrame(n.parse().unwrap_or(0)),
             ["fail", n] => Cut::FailStore(n.parse().unwrap_or(0)),
@@ -1278,7 +1494,7 @@ fn run_plan(plan: &Plan) -> (Vec<(String, String)>, usize, usize) {
     // ---- phase 1
     in_rt(|rt, local| {
         local.block_on(rt, async {
-            let mut run = Run::start(log.clone(), store.clone(), &spec_of(plan, false), plan.rbuf);
+            let mut run = Run::start(log.clone(), store.clone(), &spec_of(plan, false), plan.rbuf, plan.ibuf);
             let mut alive = true;
             for s in &plan.script {
                 log.lock().push(format!("do {}", s), "ok".into());
@@ -1302,18 +1518,23 @@ fn run_plan(plan: &Plan) -> (Vec<(String, String)>, usize, usize) {
             run.finish().await;
         })
     });
-    let (ns, nf) = {
+    let mut counts = {
         let l = log.lock();
-        (l.nstore, l.nframe)
+        Counts { ns: l.nstore, nf: l.nframe, nid1: l.nid, nid2: 0 }
     };
     // ---- phase 2: restart against the same store, sync everything, then go on working
-    restart_phase(&log, &store, plan, &plan.script2);
-    if !plan.script2.is_empty() {
+    let mut up = restart_phase(&log, &store, plan, &plan.script2, plan.rfail);
+    counts.nid2 = log.lock().nid;
+    if !up {
+        // the start failed (injected id failure) or did not complete: the NEXT start must restore everything
+        up = restart_phase(&log, &store, plan, &plan.script2, None);
+    }
+    if up && !plan.script2.is_empty() {
         // ---- phase 3: the work done after the restore must itself survive a restart
-        restart_phase(&log, &store, plan, &[]);
+        restart_phase(&log, &store, plan, &[], None);
     }
     let lines = std::mem::take(&mut log.lock().lines);
-    (lines, ns, nf)
+    (lines, counts)
 }
 
 fn emit(t: &mut Trace, id: String, lines: &[(String, String)]) {
@@ -1448,6 +1669,27 @@ fn gen_plan(rng: &mut Rng) -> Plan {
         let r = *rng.pick(&remotes);
         script.push(gen_last_none(rng, r));
     }
+    // the lane input buffer = the channel the stored state of a lane is streamed through on restart: often small,
+    // so that ordinary values and maps are restored across several reads
+    let ibuf = *rng.pick(&[24usize, 64, 200, 512, 4096, 4096]);
+    // large state (one history in twenty): values of 5-12 KB in a lane and in a store (the store's init channel is
+    // always 4096 bytes)
+    let big = rng.chance(1, 20);
+    if big {
+        let r = *rng.pick(&remotes);
+        let at = 1 + rng.below(script.len() as u64) as usize;
+        let mut ins: Vec<String> = vec![];
+        if rng.chance(1, 2) {
+            ins.push(format!("{} {} b", if rng.chance(1, 2) { "link" } else { "sync" }, r));
+        }
+        let n = 5000 + rng.below(7000) as usize;
+        ins.push(format!("cmd {} b {}", r, hex(format!("\"{}\"", big_string(n, 'x')).as_bytes())));
+        ins.push(format!("cmd {} ctl {}", r, recon_str(&format!("bs {}", 4500 + rng.below(4000)))));
+        ins.push("wait".into());
+        for (i, st) in ins.into_iter().enumerate() {
+            script.insert((at + i).min(script.len()), st);
+        }
+    }
     if rng.chance(4, 5) {
         script.push("wait".into());
     }
@@ -1466,7 +1708,23 @@ fn gen_plan(rng: &mut Rng) -> Plan {
         }
         script2.push("wait".into());
     }
-    Plan { late: false, reinit_early: false, transient, rbuf, script, end: "stop".into(), script2 }
+    if big && rng.chance(1, 2) {
+        let n = 5000 + rng.below(3000) as usize;
+        script2.insert(0, format!("cmd 9 b {}", hex(format!("\"{}\"", big_string(n, 'z')).as_bytes())));
+        script2.push("wait".into());
+    }
+    Plan {
+        late: false,
+        reinit_early: false,
+        transient,
+        rbuf,
+        ibuf,
+        rfail: None,
+        big,
+        script,
+        end: "stop".into(),
+        script2,
+    }
 }
 
 
@@ -1583,6 +1841,33 @@ fn gen_plan_late(rng: &mut Rng) -> Plan {
         let r = *rng.pick(&remotes);
         script.push(gen_late_last_none(rng, r, &lanes));
     }
+    // a value store registered at run time (`AgentContext::add_store` on a running agent), set a few times
+    let with_store = rng.chance(1, 2);
+    if with_store {
+        let at = 1 + rng.below(script.len() as u64) as usize;
+        script.insert(at.min(script.len()), "addstore ls".into());
+        for _ in 0..rng.range(1, 3) {
+            let v = if rng.chance(1, 6) { hex(b"") } else { hex((rng.below(50) as i64 - 5).to_string().as_bytes()) };
+            let pos = at + 1 + rng.below((script.len() - at) as u64) as usize;
+            script.insert(pos.min(script.len()), format!("setstore ls {}", v));
+        }
+    }
+    let ibuf = *rng.pick(&[24usize, 64, 200, 512, 4096, 4096]);
+    // large state: 5-12 KB bodies in a late value lane (and in the late store)
+    let big = rng.chance(1, 20);
+    if big {
+        let r = *rng.pick(&remotes);
+        let vlanes: Vec<String> = lanes.iter().filter(|l| !l.1 && !l.2 && l.0 != "iv").map(|l| l.0.clone()).collect();
+        let n = 5000 + rng.below(7000) as usize;
+        if let Some(l) = vlanes.first() {
+            script.push(format!("cmd {} {} {}", r, l, hex(big_string(n, 'x').as_bytes())));
+        } else {
+            script.push(format!("cmd {} iv {}", r, hex(big_string(n, 'x').as_bytes())));
+        }
+        if with_store {
+            script.push(format!("setstore ls {}", hex(big_string(4500 + rng.below(4000) as usize, 'y').as_bytes())));
+        }
+    }
     if rng.chance(4, 5) {
         script.push("wait".into());
     }
@@ -1607,6 +1892,9 @@ fn gen_plan_late(rng: &mut Rng) -> Plan {
         reinit_early: rng.chance(1, 3),
         transient: false,
         rbuf,
+        ibuf,
+        rfail: None,
+        big,
         script,
         end: "stop".into(),
         script2,
@@ -1615,19 +1903,21 @@ fn gen_plan_late(rng: &mut Rng) -> Plan {
 
 /// A history and all its cuts.
 fn run_family(t: &mut Trace, base: &Plan, tag: &str, max_cuts: usize, rng: &mut Rng) {
-    let (lines, ns, nf) = run_plan(base);
+    let (lines, cnt) = run_plan(base);
     emit(t, format!("{} stop", tag), &lines);
     let mut idle = base.clone();
     idle.end = "idle".into();
     emit(t, format!("{} idle", tag), &run_plan(&idle).0);
     let mut cuts: Vec<String> = vec![];
-    for n in 1..=ns {
+    for n in 1..=cnt.ns {
         cuts.push(format!("crashS {}", n));
         cuts.push(format!("fail {}", n));
     }
-    for n in 1..=nf {
+    for n in 1..=cnt.nf {
         cuts.push(format!("crashF {}", n));
     }
+    // histories with large state produce long lines: a sample of their cuts is enough
+    let max_cuts = if base.big { max_cuts.min(8) } else { max_cuts };
     if cuts.len() > max_cuts {
         // keep a random subset of the requested size (thorough runs use all)
         for i in 0..max_cuts {
@@ -1641,6 +1931,30 @@ fn run_family(t: &mut Trace, base: &Plan, tag: &str, max_cuts: usize, rng: &mut 
         p.end = c.clone();
         emit(t, format!("{} {}", tag, c), &run_plan(&p).0);
     }
+    // a failing `id_for` (not `NoStoreAvailable`): at a few of the id lookups of the first start (initialisation
+    // phase, prologue of the write task, registration at run time) ...
+    let pick = |n: usize, k: usize, rng: &mut Rng| -> Vec<usize> {
+        let mut all: Vec<usize> = (1..=n).collect();
+        for i in 0..k.min(all.len()) {
+            let j = i + rng.below((all.len() - i) as u64) as usize;
+            all.swap(i, j);
+        }
+        all.truncate(k);
+        all
+    };
+    let (k1, k2) = if base.big { (1, 1) } else { (1, 2) };
+    for n in pick(cnt.nid1, k1, rng) {
+        let mut p = base.clone();
+        p.end = format!("idfail {}", n);
+        emit(t, format!("{} idfail {}", tag, n), &run_plan(&p).0);
+    }
+    // ... and of the RESTART after a clean stop (the store holds the state then): the start must fail, never run
+    // an item as transient, and the next start restores everything
+    for n in pick(cnt.nid2, k2, rng) {
+        let mut p = base.clone();
+        p.rfail = Some(n);
+        emit(t, format!("{} rfail {}", tag, n), &run_plan(&p).0);
+    }
 }
 
 fn plan_of_ops(ops: &[String]) -> Plan {
@@ -1649,22 +1963,29 @@ fn plan_of_ops(ops: &[String]) -> Plan {
         reinit_early: false,
         transient: false,
         rbuf: 4096,
+        ibuf: 4096,
+        rfail: None,
+        big: false,
         script: vec![],
         end: "stop".into(),
         script2: vec![],
     };
+    let num = |s: &str| s.split('=').nth(1).and_then(|s| s.parse::<usize>().ok());
     for op in ops {
         let w: Vec<&str> = op.split_whitespace().collect();
         match w.as_slice() {
-            ["cfg", "late", b, c] => {
+            ["cfg", "late", b, c, rest @ ..] => {
                 p.late = true;
-                p.rbuf = b.split('=').nth(1).and_then(|s| s.parse().ok()).unwrap_or(4096);
+                p.rbuf = num(b).unwrap_or(4096);
                 p.reinit_early = c.ends_with("=early");
+                p.ibuf = rest.first().and_then(|x| num(x)).unwrap_or(4096);
             }
-            ["cfg", a, b] => {
+            ["cfg", a, b, rest @ ..] => {
                 p.transient = a.ends_with("=1");
-                p.rbuf = b.split('=').nth(1).and_then(|s| s.parse().ok()).unwrap_or(4096);
+                p.rbuf = num(b).unwrap_or(4096);
+                p.ibuf = rest.first().and_then(|x| num(x)).unwrap_or(4096);
             }
+            ["rfail", n] => p.rfail = n.parse().ok(),
             ["script", rest @ ..] => p.script.push(rest.join(" ")),
             ["script2", rest @ ..] => p.script2.push(rest.join(" ")),
             ["end", rest @ ..] => p.end = rest.join(" "),
